@@ -90,27 +90,47 @@ pub fn filter_scan_rule() -> Vec<Rewrite> { vec![
     rw!("filter-scan";
         "(filter ?cond (scan ?table ?columns true))" =>
         "(scan ?table ?columns ?cond)"
-        if is_primary_key_range("?cond")
+        if is_primary_key_range("?cond", "?columns")
     ),
     rw!("filter-scan-1";
         "(filter (and ?cond1 ?cond2) (scan ?table ?columns true))" =>
         "(filter ?cond2 (scan ?table ?columns ?cond1))"
-        if is_primary_key_range("?cond1")
+        if is_primary_key_range("?cond1", "?columns")
     ),
 ]}
 
-/// Returns true if the expression is a primary key range.
-fn is_primary_key_range(expr: &str) -> impl Fn(&mut EGraph, Id, &Subst) -> bool {
-    let var = var(expr);
+/// Returns true if the expression is a primary key range that the storage can evaluate.
+///
+/// The storage applies a range filter to the first scanned column only, locates the start
+/// block through the index of the first stored column, and only decodes `INT` keys. So the
+/// range must be over an `INT` primary key that is the first column of the table and of the
+/// scan, with `INT` bounds. Any other range stays in the filter operator.
+fn is_primary_key_range(expr: &str, columns: &str) -> impl Fn(&mut EGraph, Id, &Subst) -> bool {
+    let var_ = var(expr);
+    let columns = var(columns);
     move |egraph, _, subst| {
-        let Some((column, _)) = &egraph[subst[var]].data.range else {
+        let Some((column, range)) = &egraph[subst[var_]].data.range else {
             return false;
         };
-        if let Some(col) = egraph.analysis.catalog.get_column(column) {
-            col.is_primary()
-        } else {
+        let Some(col) = egraph.analysis.catalog.get_column(column) else {
             // handle the case that catalog is not initialized, like in test cases
-            false
-        }
+            return false;
+        };
+        let is_int = |b: &Bound<crate::types::DataValue>| match b {
+            Bound::Included(v) | Bound::Excluded(v) => matches!(v, crate::types::DataValue::Int32(_)),
+            Bound::Unbounded => true,
+        };
+        let first_scanned = (egraph[subst[columns]].nodes.iter())
+            .find_map(|n| match n {
+                Expr::List(ids) => ids.first().copied(),
+                _ => None,
+            })
+            .is_some_and(|id| egraph[id].nodes.contains(&Expr::Column(*column)));
+        col.is_primary()
+            && column.column_id == 0
+            && col.data_type() == crate::types::DataType::Int32
+            && first_scanned
+            && is_int(&range.start)
+            && is_int(&range.end)
     }
 }
